@@ -24,7 +24,9 @@ func (v *VerifFunnel) Done() <-chan struct{}           { return v.f.Done() }
 func VerifStarted(r *ObjectStatusReporter) map[GroupKindNamespace]bool {
 	out := map[GroupKindNamespace]bool{}
 	for gkn, ref := range r.informerRefs {
-		out[gkn] = ref.HasStarted()
+		ref.lock.Lock()
+		out[gkn] = ref.started
+		ref.lock.Unlock()
 	}
 	return out
 }
